@@ -599,16 +599,21 @@ pub fn c13(seed: u64, thorough: bool) -> Scenario {
         let j = b.r.below(b.sc.n);
         let mut others: Vec<usize> = (0..b.sc.n).filter(|i| *i != j).collect();
         b.r.shuffle(&mut others);
-        let keep = if b.sc.n >= 5 && b.r.chance(0.5) { 2 } else { 1 };
+        // Parameters chosen so that the oracle does not depend on luck: two retry targets per
+        // attempt, of which at least one can answer with probability >= 0.6 per attempt (n=4:
+        // 2 of 3 peers cut, n>=5: all but 2), no garbage collection of pending requests, a short
+        // retry delay, and 30 s more until the deadline (>= 20 attempts: 0.4^20 = 1e-8).
+        let keep = if b.sc.n >= 5 { 2 } else { 1 };
         let mut cut = 0u64;
         for i in others.iter().skip(keep) {
             cut |= bit(*i);
         }
         let t0 = b.r.range(100_000, 600_000);
         b.sc.net.rules.push(Rule { t0_us: t0, t1_us: FOREVER, src: cut, dst: bit(j), bidir: false, svc_mask: 1 << SVC_MEMPOOL, kind: RuleKind::Block, reply_only: false, label: "miss-batch-one-way".into() });
-        let nodes = b.r.range(1, (b.sc.n - 2) as u64) as usize;
         for p in b.sc.params.iter_mut() {
-            p.sync_retry_nodes = nodes;
+            p.sync_retry_nodes = 2;
+            p.sync_retry_delay = 500;
+            p.gc_depth = 10_000;
         }
     }
     let k = if one_way { 0 } else { b.r.range(0, 2) };
@@ -632,7 +637,7 @@ pub fn c13(seed: u64, thorough: bool) -> Scenario {
     b.sc.bounds.e2e_deadline_us = load_end;
     // A backward jump of the wall clock postpones the retry of a sync request by its size.
     let back: u64 = b.sc.net.clock_jumps.iter().filter(|(_, d)| *d < 0).map(|(_, d)| (-*d) as u64 * 1_000).sum();
-    b.sc.duration_us = load_end + 1_000_000 + 2 * (retry + 8_000_000) + back;
+    b.sc.duration_us = load_end + 1_000_000 + 2 * (retry + 8_000_000) + back + if one_way { 30_000_000 } else { 0 };
     b.tokio_knobs();
     b.finish()
 }
